@@ -33,7 +33,8 @@ LabelsOk(o, lg) ==
   /\ IF inp.useDesc THEN Range(lg.lab) = Range(o.lab) /\ Cardinality(Range(lg.lab)) = Len(lg.lab)
                     ELSE lg.lab = o.lab
 RowOf(o, lg, p) == IF inp.useDesc THEN IndexOf(o.lab, lg.lab[p]) ELSE p
-Exact == inp.method \in {"euclidean", "mahalanobis", "correlation", "crossnobis"}
+Exact == /\ inp.method \in {"euclidean", "mahalanobis", "correlation", "crossnobis"}
+         /\ inp.unbal => inp.method # "correlation"      \* (unbalanced correlation: pairwise, irrational)
 ValuesOk(o, lg) ==
   /\ Len(lg.rdms) = Len(o.rdms)
   /\ Exact => \A r \in 1..Len(o.rdms) :
@@ -57,7 +58,7 @@ Verdict(o) ==
                       \* what the Python side needs to finish the irrational (log) step
                       lab |-> o.lab,
                       rates |-> IF Exact THEN <<>> ELSE [r \in 1..Len(o.rdms) |-> o.rdms[r].rates],
-                      pairs |-> IF inp.mode = "cv" THEN o.pairs ELSE <<>>]))
+                      pairs |-> [r \in 1..Len(o.rdms) |-> o.rdms[r].pairs]]))
   ELSE PrintT(ToJson([reject |-> tid, labels_ok |-> LabelsOk(o, lg), time_ok |-> TimeOk(o, lg),
                       first_bad |-> FirstBad(o, lg), expected |-> o]))
 
@@ -67,7 +68,7 @@ TInit == /\ tid \in 1..Len(Traces)
          /\ contrib = <<>>
 Pipeline == \/ Average
             \/ \E m \in {"euclidean", "correlation", "mahalanobis", "poisson"} : Kernel(m)
-            \/ Build \/ SortAlpha \/ Single \/ ListBranch \/ Movie
+            \/ Build \/ SortAlpha \/ PartialCv \/ PartialUnbalanced \/ Single \/ ListBranch \/ Movie
             \/ DefaultFolds \/ ExplicitFolds \/ SortByCond \/ FoldMeans \/ PairProducts
             \/ AverageFoldPairs \/ BuildCv
 TNext == /\ Pipeline /\ UNCHANGED tid
